@@ -15,6 +15,10 @@ pub struct NmsCase {
     pub boxes: Vec<(UB, Option<f32>)>,
     pub nms_thr: f32,
     pub score_thr: Option<f32>,
+    /// integer axis-aligned boxes and a dyadic threshold: every coverage is exact in f32 and f64,
+    /// so the threshold is decided without a tolerance band
+    #[serde(default)]
+    pub exact: bool,
 }
 
 #[derive(Clone, Debug)]
@@ -84,7 +88,28 @@ pub fn nms_case() -> impl Strategy<Value = NmsCase> {
                 };
                 boxes.push((b, score));
             }
-            NmsCase { boxes, nms_thr, score_thr }
+            NmsCase { boxes, nms_thr, score_thr, exact: false }
+        })
+}
+
+/// integer boxes on a small grid with sizes that are powers of two, dyadic thresholds
+pub fn exact_case() -> impl Strategy<Value = NmsCase> {
+    (
+        proptest::collection::vec((0i32..12, 0i32..12, prop_oneof![Just(2i32), Just(4), Just(8)], prop_oneof![Just(2i32), Just(4), Just(8)], prop_oneof![2 => Just(None), 3 => (1u8..6).prop_map(|k| Some(k as f32 / 8.0))], any::<bool>()), 0..10),
+        prop_oneof![Just(0.125f32), Just(0.25), Just(0.375), Just(0.5), Just(0.625), Just(0.75)],
+        prop_oneof![2 => Just(None), 1 => Just(Some(0.25f32))],
+    )
+        .prop_map(|(v, nms_thr, score_thr)| NmsCase {
+            boxes: v.into_iter().map(|(l, t, w, h, s, zero_angle)| {
+                let mut b = UB::ltwh(l as f32, t as f32, w as f32, h as f32);
+                if zero_angle {
+                    b.angle = Some(0.0);
+                }
+                (b, s)
+            }).collect(),
+            nms_thr,
+            score_thr,
+            exact: true,
         })
 }
 
@@ -138,7 +163,7 @@ pub fn check_nms(c: &NmsCase) -> CaseResult {
     let cover = |k: usize, d: usize| -> (f64, f64) {
         let i = geom::intersection_area(&rb[k], &rb[d]);
         let mag = rb[k].xc.abs().max(rb[k].yc.abs()) + rb[k].radius() + rb[d].radius();
-        let band = 2e-4 + 1e3 * f64::EPSILON * mag * mag / rb[d].area();
+        let band = if c.exact { 0.0 } else { 2e-4 + 1e3 * f64::EPSILON * mag * mag / rb[d].area() };
         (i / rb[d].area(), band)
     };
     let t = c.nms_thr as f64;
@@ -150,7 +175,7 @@ pub fn check_nms(c: &NmsCase) -> CaseResult {
             if cv > 0.0 {
                 overlap_kept = true;
             }
-            if (cv - t).abs() <= band {
+            if (cv - t).abs() <= band && !c.exact {
                 band_hit = true;
             }
             ensure!(cv <= t + band, "nms-kept-covered", "kept box {} is covered {:.6} > threshold {} by higher-ranked kept box {}", k2, cv, t, k1);
@@ -170,6 +195,7 @@ pub fn check_nms(c: &NmsCase) -> CaseResult {
                 if (cv - t).abs() <= band {
                     band_hit = true;
                 }
+                // (exact class: covered by strictly more than the threshold)
                 if cv > t - band {
                     justified = true;
                     break;
@@ -199,11 +225,12 @@ pub fn run(env: &Env, rep: &Report) {
     rep.set_rule("lists of 0..40 boxes in up to 4 clusters (duplicates, nested, rotated, sparse), scores absent/present/mixed with ties, nms threshold 0.05..0.95, score threshold None/below/inside/above, invalid boxes mixed in. Non-trivial: >=1 box dropped by suppression and >=1 kept box overlapping a higher-ranked kept box; distinct = distinct serialized case");
     rep.assume("coverage of the lower-ranked box computed with oracle/geom.rs; decisions within 2e-4 of the threshold accept either outcome; score equal to the score threshold accepts either outcome");
     par_generated(rep, "lists", nms_case, env.tier.pick(1_200_000, 20_000_000), workers(), check_nms);
+    par_generated(rep, "exact-lists", exact_case, env.tier.pick(600_000, 8_000_000), workers(), check_nms);
 }
 
 pub fn replay(sub: &str, case: Value) -> Option<CaseResult> {
     match sub {
-        "lists" => Some(replay_case(case, check_nms, sub)),
+        "lists" | "exact-lists" => Some(replay_case(case, check_nms, sub)),
         _ => None,
     }
 }
